@@ -39,6 +39,18 @@ def conformance_case(draw):
     classes = []
     for _ in range(nops):
         op, cls = draw(one_op(cur))
+        if draw(gens.chance(7)):
+            # members an operation does not define are ignored (RFC 6902 section 4): "from" on add/remove/replace/test, "value" on
+            # remove/move/copy, unknown names, names in another case
+            names = [k for k, _ in op[1]]
+            extra = draw(st.lists(st.sampled_from([[b"from", ["N", 7.0]], [b"from", ["n"]], [b"from", ["A", []]], [b"from", S(b"/no/such/place")],
+                                                   [b"value", ["N", 1.0]], [b"value", ["O", []]], [b"foo", S(b"bar")], [b"Op", S(b"remove")],
+                                                   [b"PATH", S(b"/x")], [b"", ["t"]], [b"path ", S(b"")]]), min_size=1, max_size=2))
+            extra = [e for e in extra if e[0] not in names]
+            if extra:
+                pos = draw(st.integers(0, len(op[1])))
+                op = ["O", op[1][:pos] + extra + op[1][pos:]]
+                cls = cls + "+extra_members"
         ops.append(op)
         classes.append(cls)
         try:
@@ -256,7 +268,7 @@ class C16(Prop):
             "non-trivial = >= 2 ops applied before the verdict, or a path needing ~0/~1, or a failure at op >= 2; distinct by case hash")
     ASSUMPTIONS = ["'remove' of the whole document is outside conformance (left open by the property)",
                    "keys distinct per object; pointers that are not syntactically valid are robustness-only"]
-    REQUIRED_CLASSES = ["conformance_success", "conformance_failure", "robustness", "escape_in_path", "fail_at_op>=2", "root_replaced", "deep_document"]
+    REQUIRED_CLASSES = ["conformance_success", "conformance_failure", "robustness", "escape_in_path", "fail_at_op>=2", "root_replaced", "deep_document", "extra_members"]
 
     def budget(self, tier):
         return {"workers": 14, "examples": 1400 if tier == "quick" else 20000}
@@ -336,6 +348,8 @@ class C16(Prop):
             # known finding D15 region is excluded by construction (and counted)
             if any(_is_copy_move_to_root(op) for op in patch[1]):
                 stats.cls("copy_or_move_to_root")
+            if any("+extra_members" in c for c in case.get("classes", [])):
+                stats.cls("extra_members")
             if any(_is_remove_root(op) for op in patch[1]):
                 # left open by the property (the RFC does not define the result)
                 stats.exclude("remove-whole-document")
